@@ -65,3 +65,33 @@ func RepoDebugSections() [][]wasmenc.Custom {
 	}
 	return sets
 }
+
+// synthDWARF builds a small well-formed DWARF v4 description: one compilation unit covering
+// [low, low+size) of the code section and a line program whose first row may lie after the
+// start of the unit, with a few rows of drawn spacing (rows before, inside and beyond the
+// unit's range). Symbolizers must cope with an instruction offset anywhere relative to these.
+func (g *gen) synthDWARF() []wasmenc.Custom {
+	le32 := func(v uint32) []byte { return []byte{byte(v), byte(v >> 8), byte(v >> 16), byte(v >> 24)} }
+	low := uint32(1 + g.intn(64, "culow"))
+	size := uint32([]int{1, 16, 0x100, 0x1000, 0x10000}[g.intn(5, "cusize")])
+	first := low + uint32([]int{0, 0, 1, 8, 0x40, 0x80, 0x400}[g.intn(7, "firstrow")])
+	abbrev := []byte{0x01, 0x11, 0x00, 0x03, 0x08, 0x10, 0x17, 0x11, 0x01, 0x12, 0x06, 0x00, 0x00, 0x00}
+	info := []byte{0x18, 0, 0, 0, 0x04, 0x00, 0, 0, 0, 0, 0x04, 0x01, 'a', '.', 'c', 0x00, 0, 0, 0, 0}
+	info = append(info, le32(low)...)
+	info = append(info, le32(size)...)
+	prog := []byte{0x00, 0x05, 0x02}
+	prog = append(prog, le32(first)...)
+	prog = append(prog, 0x01) // DW_LNS_copy
+	for i, n := 0, g.rng(0, 4, "dwarfrows"); i < n; i++ {
+		adv := []int{1, 2, 16, 100}[g.intn(4, "advance")]
+		prog = append(prog, 0x02, byte(adv), 0x03, byte(1+g.intn(5, "lineadv")), 0x01) // advance_pc, advance_line, copy
+	}
+	prog = append(prog, 0x02, 0x10, 0x00, 0x01, 0x01) // advance_pc 16, end_sequence
+	hdr := []byte{0x01, 0x01, 0x01, 0xfb, 0x0e, 0x0d, 0x00, 0x01, 0x01, 0x01, 0x01, 0x00, 0x00, 0x00, 0x01, 0x00, 0x00, 0x01,
+		0x00, 'a', '.', 'c', 0x00, 0x00, 0x00, 0x00, 0x00}
+	body := append([]byte{0x04, 0x00}, le32(uint32(len(hdr)))...)
+	body = append(body, hdr...)
+	body = append(body, prog...)
+	line := append(le32(uint32(len(body))), body...)
+	return []wasmenc.Custom{{Name: ".debug_abbrev", Data: abbrev}, {Name: ".debug_info", Data: info}, {Name: ".debug_line", Data: line}}
+}
